@@ -70,6 +70,11 @@ def parse_counters(ctx):
                 if isinstance(s, ast.AugAssign) and isinstance(s.target, ast.Subscript) and U(s.target.slice) == st.target.id \
                         and const(s.value) == 1 and isinstance(s.op, ast.Add):
                     counters.setdefault(st.iter.id, []).append((U(s.target.value), 'flat'))
+        # Counter.update(<found list>) counts every element once: the same tally as the loop
+        if isinstance(st, ast.Expr) and isinstance(st.value, ast.Call) and isinstance(st.value.func, ast.Attribute) \
+                and st.value.func.attr == 'update' and len(st.value.args) == 1 and isinstance(st.value.args[0], ast.Name) \
+                and not st.value.keywords and U(st.value.func.value).startswith('self.count_'):
+            counters.setdefault(st.value.args[0].id, []).append((U(st.value.func.value), 'flat'))
     out = {}
     detail = {}
     for var, (det, pos) in var_of.items():
